@@ -9,6 +9,8 @@ A spec file (/verif/verus/<name>.vspec) is a Verus source text with directive bl
     //@loop <n>                             text spliced between the n-th loop header and its body
     //    invariant ..., decreases ...,
     //@rewrite <regex> ==> <replacement>    extra mechanical rewrite of this item (counted, reported)
+    //@hint-after <regex>                   proof-only text (ghost lets / assert) inserted after the first
+    //    assert(...);                      line of the body matching the regex; changes no executable code
     //@end
 
 Everything outside directive blocks is copied as is (imported contracts, spec functions, lemmas).
@@ -128,7 +130,7 @@ def find_item(src, kind, anchor, after=None):
 LOOP_RE = re.compile(r"(?m)^[ \t]*(?:'[a-z_]+: )?(while|for|loop)\b")
 
 
-def splice(item, kind, clauses, loops, rewrites, rules):
+def splice(item, kind, clauses, loops, rewrites, rules, hints=()):
     text = item
     # R3 docs / attributes
     text, n = _strip_attrs_and_docs(text)
@@ -165,6 +167,16 @@ def splice(item, kind, clauses, loops, rewrites, rules):
             raise AnchorLost("rewrite %r matched nothing" % pat)
         key = "R-item `%s` -> `%s`" % (pat, rep)
         rules[key] = rules.get(key, 0) + n
+    for pat, hint in hints:
+        ls = text.split("\n")
+        for idx, l in enumerate(ls):
+            if re.search(pat, l):
+                ls.insert(idx + 1, "        proof {\n" + hint + "\n        }")
+                break
+        else:
+            raise AnchorLost("hint anchor %r not found" % pat)
+        text = "\n".join(ls)
+        rules["R9 proof-only hint block inserted after an anchored statement"] = rules.get("R9 proof-only hint block inserted after an anchored statement", 0) + 1
     if kind in ("fn", "impl-fn"):
         j = text.find("{")
         # the body brace is the first '{' that is not inside the signature's generics/where: good
@@ -211,6 +223,7 @@ def assemble(repo_dir, spec_name):
             clauses = []
             loops = {}
             rewrites = []
+            hints = []
             cur = None
             i += 1
             while i < len(lines) and lines[i].strip() != "//@end":
@@ -223,6 +236,9 @@ def assemble(repo_dir, spec_name):
                     n_ord = int(s.split()[1])
                     loops[n_ord] = []
                     cur = loops[n_ord]
+                elif s.startswith("//@hint-after "):
+                    hints.append([s[len("//@hint-after "):].strip(), []])
+                    cur = hints[-1][1]
                 elif s.startswith("//@rewrite "):
                     pat, rep = s[len("//@rewrite "):].split(" ==> ")
                     rewrites.append((pat, rep))
@@ -238,7 +254,8 @@ def assemble(repo_dir, spec_name):
                 with open(p) as fh:
                     srcs[rel] = fh.read()
             item, _ = find_item(srcs[rel], kind, anchor, after)
-            text = splice(item, kind, "\n".join(clauses), {k: "\n".join(v) for k, v in loops.items()}, rewrites, rules)
+            text = splice(item, kind, "\n".join(clauses), {k: "\n".join(v) for k, v in loops.items()}, rewrites, rules,
+                          [(h[0], "\n".join(h[1])) for h in hints])
             out.append("// ---- extracted verbatim from %s: %s %s ----" % (rel, kind, anchor))
             out.append(text)
             extracted.append("%s::%s" % (rel, anchor))
